@@ -22,7 +22,7 @@ ASSUMPTIONS = ["responses of one key (remote node, purpose, role) arrive in pair
                "instruction granularity: interleavings are explored between visible instructions"]
 SHARDS = {"quick": 4, "thorough": 16}
 MIN_COUNTERS = {"schedules": 2000, "deferred_deliveries_seen": 100, "early_arrivals_seen": 100}
-MIN_NONTRIVIAL = {"quick": 500, "thorough": 20000}
+MIN_NONTRIVIAL = {"quick": 500, "thorough": 8000}
 WALL_BUDGET = {"quick": 200, "thorough": 2400}
 
 
